@@ -200,6 +200,22 @@ def r4(F, rep):
             ok = ok and any(t[0] == "true" and "is_enabled(" in t[1] for t in facts)
         rep.add("C08-R4", "active-list|%s" % lst, g.loc(), "only enabled objects are appended to %s()" % lst, ok,
                 detail="a disabled or sleeping object must contribute nothing", func=q)
+    # putting an object to sleep works by disable(awake) releasing the reference that awake holds on active: an object
+    # with a time-step factor must therefore start with awake enabled, or the first disable() is a no-op and the object
+    # stays active (with its n-fold force) until the first multiple of the factor
+    for q, feat in (("colvarbias::init", "f_cvb_awake"), ("colvar::init", "f_cv_awake")):
+        g = F.one(q)
+        ens = [c for c in X.calls(g) if X.callee_name(c) == "enable" and c.get("cq") == "colvardeps::enable" and X.call_args(c) and
+               feat in X.key(X.call_args(c)[0], g)]
+        ok = False
+        for c in ens:
+            facts, gs = C.guard_facts(g, c, X.const_locals(g))
+            # unconditional, or for every factor > 1
+            flags = [t for t in facts if "time_step_factor" in str(t)]
+            other = [t for t in facts if "time_step_factor" not in str(t) and t[0] in ("true", "false")]
+            ok = ok or (not other and (not flags or any((t[0] == "cmp" and t[1] == ">" and t[3] == "1") or (t[0] == "cmp" and t[1] == ">=" and t[3] == "2") for t in flags)))
+        rep.add("C08-R4", "initially-awake|%s" % q, g.loc(ens[0]) if ens else g.loc(), "%s enables %s for every object with a time-step factor > 1: %s" % (q, feat, ok), ok,
+                detail="a run that starts at a step that is not a multiple of the factor applies the n-fold force at every step up to the first multiple", func=q)
 
 
 def r5(F, rep):
@@ -246,6 +262,39 @@ def r6(F, rep):
     rep.add("C08-R6", "producers", f.loc(), "%d scripted-force producer call(s) in update_colvar_forces" % len(scr), len(scr) >= 1, func=f.q)
 
 
+def r7(F, rep):
+    rep.rule("C08-R7", "every force a variable generates itself for its atoms is an impulse over its own time-step factor: in "
+                       "colvar::update_forces_energy() and update_extended_Lagrangian() each contribution written to the applied "
+                       "force f that is not a bias accumulator (fb, fb_actual, which the biases have scaled already) -- the hidden "
+                       "Jacobian force, the coupling-spring force -- carries time_step_factor, in the expression itself or through "
+                       "a following `f *= time_step_factor` on every path")
+    n = 0
+    for q in ("colvar::update_forces_energy", "colvar::update_extended_Lagrangian"):
+        f = F.one(q)
+        ws = []
+        for w, t in lvalue_writes(f):
+            if X.key(t, f) != "this.f" or w.get("op") not in ("=", "+=", "-="):
+                continue
+            rhs = X.kids(w)[1] if w["k"] in ("BinaryOperator", "CompoundAssignOperator") else (X.call_args(w)[1] if len(X.call_args(w)) > 1 else None)
+            if rhs is None:
+                continue
+            k = X.re_strip(X.key(rhs, f, X.const_locals(f)))
+            if "this.fb" in k:
+                continue      # bias accumulators, scaled by the biases (C08-R3)
+            ws.append((w, k))
+        scalers = [w for w, t in lvalue_writes(f) if X.key(t, f) == "this.f" and w.get("op") == "*=" and
+                   "time_step_factor" in X.key((X.kids(w)[1] if w["k"] != "CXXOperatorCallExpr" else X.call_args(w)[1]), f)]
+        for w, k in ws:
+            n += 1
+            inline = "time_step_factor" in k
+            later = any(f.cfg.can_reach(w, s) and not f.cfg.exits_from(w, avoiding=[s]) for s in scalers)
+            rep.add("C08-R7", "%s|%s" % (q, k[:50]), f.loc(w), "%s: contribution `%s` to the applied force %s" % (
+                q, k[:60], "carries time_step_factor" if inline else ("is scaled by a following f *= time_step_factor" if later else "is NOT scaled by time_step_factor")),
+                inline or later, detail="with timeStepFactor n the atoms would receive 1/n of this impulse", func=q)
+    if n < 2:
+        raise AnalysisBroken("C08-R7: contributions of the variable to its applied force not found")
+
+
 def run(F, rep, tier):
     r1(F, rep)
     r2(F, rep)
@@ -253,3 +302,4 @@ def run(F, rep, tier):
     r4(F, rep)
     r5(F, rep)
     r6(F, rep)
+    r7(F, rep)
